@@ -240,3 +240,95 @@ def fmt_of_write(e):
             return b.term[1], b.term[2]
         return "raw", b.term
     return "?", term_of(b)
+
+
+def concrete_record_length_rows(RA):
+    """write_record evaluated (E2) on concrete records whose timestamp / offset deltas sit on the boundaries where a varint grows by one
+    byte (+-2**k, +-2**k +- 1): the zig-zag varint written first must equal the number of bytes written after it.  A finite set of
+    cases, each a concrete counterexample when it fails.  Rows: {ok, case, message}; ok None = not decidable here (limit)."""
+    import datetime as _dt
+    I = RA.I
+    f = RA.fn(RA.rw, "write_record")
+    Rec, Hdr = RA.cls("Record"), RA.cls("RecordHeader")
+    epoch = _dt.datetime(1970, 1, 1, tzinfo=_dt.timezone.utc)
+    base_ts, base_off = 1_700_000_000_000, 1 << 40
+    bounds = sorted({s * (1 << k) + d for k in range(0, 31) for s in (1, -1) for d in (-1, 0, 1)})
+    cases = [(d, 0, b"k", b"v", ()) for d in bounds] + [(0, d, None, b"", ()) for d in bounds] + \
+            [(-64, -8192, b"", None, ((b"h", b"x"), (b"", None))), (63, 64, b"x" * 63, b"y" * 64, ()), (0, 0, b"x" * 8191, b"y" * 8192, ())]
+
+    def leb(u):
+        out = bytearray()
+        while True:
+            b = u & 0x7F
+            u >>= 7
+            if u:
+                out.append(b | 0x80)
+            else:
+                out.append(b)
+                return bytes(out)
+    rows = []
+    for td, od, key, value, headers in cases:
+        case = f"write_record(timestamp delta {td} ms, offset delta {od}, key {None if key is None else len(key)} B, value {None if value is None else len(value)} B, {len(headers)} header(s))"
+        try:
+            hs = tuple(I.call(Hdr, [], {"key": hk, "value": hv}, Run(), None) for hk, hv in headers)
+            rec = I.call(Rec, [], {"attributes": 0, "timestamp": epoch + _dt.timedelta(milliseconds=base_ts + td), "offset": base_off + od,
+                                   "key": key, "value": value, "headers": hs}, Run(), None)
+            run = Run()
+            sink = StreamV("param")
+            I.call(f, [sink, rec, base_ts, base_off], {}, run, None)
+        except Raised as r:
+            rows.append({"ok": False, "case": case, "message": f"{case} raises {short_exc(r.cls)} at {r.site}"})
+            continue
+        except Limit as e:
+            rows.append({"ok": None, "case": case, "message": f"not evaluated: {e}"})
+            break
+
+        def flatten(uid, upto):
+            out = b""
+            for i, e in enumerate(run.effects[:upto]):
+                if e[0] in ("write", "wvarint") and getattr(e[1], "uid", None) == uid:
+                    d = e[2]
+                    if e[0] == "wvarint":
+                        if isinstance(d, Sym):
+                            # a value computed from the position / size of a local buffer: resolved from what was written to it so far
+                            def resolve(t):
+                                if isinstance(t, tuple) and len(t) == 3 and t[0] == "tell" and isinstance(t[2], int):
+                                    inner_ = flatten(t[1], t[2])
+                                    return ("k", len(inner_)) if inner_ is not None else t
+                                if isinstance(t, tuple) and len(t) == 2 and t[0] == "len" and isinstance(t[1], tuple) and t[1][:1] == ("contents",):
+                                    inner_ = flatten(t[1][1], t[1][2] if len(t[1]) > 2 and isinstance(t[1][2], int) else i)
+                                    return ("k", len(inner_)) if inner_ is not None else t
+                                if isinstance(t, tuple):
+                                    return tuple(resolve(x) for x in t)
+                                return t
+                            from .grammar import eval_int_term
+                            d = eval_int_term(resolve(d.term), 0)
+                        if not (isinstance(d, int) and not isinstance(d, bool) and d >= 0):
+                            return None
+                        out += leb(d)
+                    elif isinstance(d, bytes):
+                        out += d
+                    elif isinstance(d, Sym) and isinstance(d.term, tuple) and d.term[:1] == ("contents",):
+                        inner = flatten(d.term[1], d.term[2] if len(d.term) > 2 and isinstance(d.term[2], int) else i)
+                        if inner is None:
+                            return None
+                        out += inner
+                    else:
+                        return None
+            return out
+        data = flatten(sink.uid, len(run.effects))
+        if data is None:
+            rows.append({"ok": None, "case": case, "message": "the bytes written for a concrete record are not constant"})
+            break
+        u, shift, n = 0, 0, 0
+        for b in data[:10]:
+            u |= (b & 0x7F) << shift
+            shift += 7
+            n += 1
+            if not b & 0x80:
+                break
+        length = (u >> 1) ^ -(u & 1)
+        rows.append({"ok": length == len(data) - n, "case": case,
+                     "message": f"{case}: the length prefix says {length}, {len(data) - n} bytes follow -- a conforming decoder takes the record's end "
+                                f"at the wrong place and misreads the next record"})
+    return rows
